@@ -45,6 +45,7 @@ def run_one(prop, m, idx):
         return {"name": m["name"], "status": "SURVIVED", "violated": r["violated"], "undecided": r["undecided"][:2]}
     finally:
         shutil.rmtree(scratch, ignore_errors=True)
+        shutil.rmtree(os.path.join(ROOT, ".cache", "gen_mut%d" % idx), ignore_errors=True)
 
 
 def main():
